@@ -86,3 +86,9 @@ def run(chk, replay=None):
                             "alphabet: 2 names x 2 (quick) / 3 (thorough) addresses for the exhaustive graph; 3 names x 4 addresses for traces"]
     finally:
         shutil.rmtree(d, ignore_errors=True)
+
+MANIFEST = {
+    "technique": "TLC exhaustive state graph of NameTable.tla, every edge replayed on the real table; TLC trace validation of recorded concurrent executions (lock order) against the same spec",
+    "level_text": "Model checking of an explicit TLA+ specification bound to the code in both directions: every (state, operation) edge of the complete graph over a small alphabet is executed on the real NetBIOSNameServer with result and whole-table comparison (which by induction covers every history over that alphabet), plus query-then-operations histories for aliasing; real multi-goroutine executions are validated event by event, with the C17 invariants evaluated in every state, under the race detector.",
+    "level_note": "Assumes expiry behaves as two classes (+1h/-1h); schedules are sampled (race detector + linearisation-order validation), not enumerated; alphabet 2 names x 2/3 addresses for the exhaustive part.",
+}
